@@ -548,3 +548,37 @@ func (fv *FV) globalInitFacts(v *types.Var, g Term) {
 	}
 	fv.assumedUsed[fv.p.funcDisplayName(fc)+" (initializer of "+v.Pkg().Name()+"."+v.Name()+")"] = true
 }
+
+
+// unsignedFacts: values of unsigned Go types are not negative, for the value itself, through pointers and struct fields.
+func (fv *FV) unsignedFacts(t Term, gt types.Type, depth int) []string {
+	if depth == 0 || t.Sort == nil || gt == nil {
+		return nil
+	}
+	gt = types.Unalias(gt)
+	switch t.Sort.Kind {
+	case KInt:
+		if isUnsigned(gt) {
+			return []string{sx(">=", t.S, "0")}
+		}
+	case KPtr:
+		if p, ok := gt.Underlying().(*types.Pointer); ok && t.Sort.Elem != nil {
+			var out []string
+			for _, f := range fv.unsignedFacts(ptrDrf(t), p.Elem(), depth-1) {
+				out = append(out, sx("=>", sx("not", sx("=", t.S, ptrNil(t.Sort).S)), f))
+			}
+			return out
+		}
+	case KStruct:
+		if st, ok := gt.Underlying().(*types.Struct); ok {
+			var out []string
+			for i := 0; i < st.NumFields(); i++ {
+				if f := t.Sort.FieldByName(st.Field(i).Name()); f != nil {
+					out = append(out, fv.unsignedFacts(Term{sx(f.Acc, t.S), f.Sort}, st.Field(i).Type(), depth-1)...)
+				}
+			}
+			return out
+		}
+	}
+	return nil
+}
